@@ -146,12 +146,33 @@ def check_storey_data(ctx, prog, rule="c03.storey"):
             ctx.ok(rule, key, "Space.%s %s the FLOOR block's %s, unconditionally" % (fld, "accumulates" if fld == "z" else "is", want), f.loc(ln))
 
 
+def check_polygon_helpers_exact(ctx, prog, rule="c03.exact"):
+    """"positions to one centimetre": the helpers of the parser's Polygon (area, perimeter, edge length, the angle of an edge's normal, rotation, mirroring) feed
+    the position and azimuth of every wall placed on an edge of its space.  None of them may round: half a degree on the azimuth of a 20 m wall moves its far
+    end by 17 cm."""
+    from ..mir import callee_name as _cn
+    n = 0
+    for f in sorted(prog.fns.values(), key=lambda f: f.id):
+        if not (f.crate == "hulc" and "bdl::envelope::geom::Polygon" in f.path) or f.raw.get("impl_derived") or "fmt::" in f.path:
+            continue
+        n += 1
+        for b, t in f.body.calls():
+            nm = short_callee(_cn(t) or "")
+            if nm in ("round", "floor", "ceil", "trunc", "fround2", "fround3", "round_ties_even"):
+                ctx.violation(rule, "%s|%s|%s" % (rule, prog.root_of(f).path.split("::")[-1], nm), "%s() in %s: an angle or length of the space outline is rounded before the walls "
+                              "on its edges are placed and oriented with it" % (nm, prog.root_of(f).path.split("::")[-1]), f.loc(t.get("ln")))
+    ctx.floor(rule, "Polygon helper bodies scanned", n, 8)
+    if not any(i.rule == rule and i.verdict == "violation" for i in ctx.instances):
+        ctx.ok(rule, rule + "|Polygon", "none of the %d Polygon helper bodies rounds an angle or a length" % n, None)
+
+
 def run(ctx):
     prog = ctx.prog
     check_storey_data(ctx, prog)
     # the tilt an element gets when the file gives none decides which way its polygon is turned (shared with C18)
     from .c18 import check_default_tilt
     check_default_tilt(ctx, prog, rule="c03.default")
+    check_polygon_helpers_exact(ctx, prog)
     from ._c03geom import check_wall, check_shades
     check_wall(ctx, prog)
     check_shades(ctx, prog)
